@@ -34,7 +34,7 @@ Conflict(e) == \/ \E i, j \in 1..N(e) : i # j /\ Gets(e, i) /\ Gets(e, j) /\ Sam
 PluginFailed(e, i) ==
   \/ ~HsGood(S(e)[i])
   \/ Gets(e, i) /\ ~(GenLabelOK(S(e)[i]) \/ SamePathGroup(S(e)[i]) = "core")     \* exception, garbage, truncated, dotdot, ...
-  \/ ByeSeen(e, i) /\ S(e)[i].bye # "ok"
+  \/ ByeSeen(e, i) /\ S(e)[i].bye \notin {"ok", "flood"}       \* "flood": a proper answer, then output nobody asked for (Plugin.tla)
 SomeFailure(e) == (\E i \in 1..N(e) : PluginFailed(e, i)) \/ Conflict(e)
 \* a failure before anything is written: handshake, generate request, or a path conflict
 \* (a goodbye that fails after a successful generation is not one of them)
